@@ -121,6 +121,9 @@ class Evaluator:
                     return l + r
                 if isinstance(n.op, ast.Mod):
                     return l % r
+                if isinstance(n.op, ast.Mult) and ((isinstance(l, (str, list, tuple)) and isinstance(r, int)) or (isinstance(r, (str, list, tuple)) and isinstance(l, int))
+                                                   or (isinstance(l, (int, float)) and isinstance(r, (int, float)))):
+                    return l * r
                 if isinstance(l, (set, frozenset)) and isinstance(r, (set, frozenset)):
                     if isinstance(n.op, ast.BitAnd):
                         return l & r
